@@ -485,6 +485,12 @@ class Key(CryptographicObject):
         # unsupported by kmip.core
         self._usage_limits = None
 
+    @staticmethod
+    def _all_unset(values):
+        # A field is unset if it is None or an empty dictionary. Values such
+        # as 0 or False are legitimate settings and must be kept.
+        return all((v is None) or (v == {}) for v in values)
+
     @property
     def key_wrapping_data(self):
         """
@@ -514,9 +520,11 @@ class Key(CryptographicObject):
                     self._kdw_eki_cp_initial_counter_value
             }
         }
-        if not any(encryption_key_info['cryptographic_parameters'].values()):
+        if self._all_unset(
+                encryption_key_info['cryptographic_parameters'].values()
+        ):
             encryption_key_info['cryptographic_parameters'] = {}
-        if not any(encryption_key_info.values()):
+        if self._all_unset(encryption_key_info.values()):
             encryption_key_info = {}
 
         mac_sign_key_info = {
@@ -541,9 +549,11 @@ class Key(CryptographicObject):
                     self._kdw_mski_cp_initial_counter_value
             }
         }
-        if not any(mac_sign_key_info['cryptographic_parameters'].values()):
+        if self._all_unset(
+                mac_sign_key_info['cryptographic_parameters'].values()
+        ):
             mac_sign_key_info['cryptographic_parameters'] = {}
-        if not any(mac_sign_key_info.values()):
+        if self._all_unset(mac_sign_key_info.values()):
             mac_sign_key_info = {}
 
         key_wrapping_data['wrapping_method'] = self._kdw_wrapping_method
@@ -552,7 +562,7 @@ class Key(CryptographicObject):
         key_wrapping_data['mac_signature'] = self._kdw_mac_signature
         key_wrapping_data['iv_counter_nonce'] = self._kdw_iv_counter_nonce
         key_wrapping_data['encoding_option'] = self._kdw_encoding_option
-        if not any(key_wrapping_data.values()):
+        if self._all_unset(key_wrapping_data.values()):
             key_wrapping_data = {}
 
         return key_wrapping_data
